@@ -18,6 +18,8 @@
 #include <AIToolbox/Seeder.hpp>
 #include <AIToolbox/Utils/Probability.hpp>
 #include <AIToolbox/MDP/Experience.hpp>
+#include <AIToolbox/MDP/IO.hpp>
+#include <sstream>
 #include <AIToolbox/MDP/SparseExperience.hpp>
 #include <AIToolbox/MDP/MaximumLikelihoodModel.hpp>
 #include <AIToolbox/MDP/SparseMaximumLikelihoodModel.hpp>
@@ -364,6 +366,54 @@ template <class M> static void historyCase(Rng & rng, const std::string & tier) 
     int n = (int)rng.range(2, tier == "thorough" ? 40 : 12);
     accLine(*obj);
     for (int i = 0; i < n; ++i) { oneOp(rng, *obj); if (i == n / 2 || i + 1 == n) accLine(*obj); }
+}
+
+
+// ------------------------------------------------------------------------------------------ loaders (src/MDP/IO.cpp)
+//   C06 load <kb> <pre-state> | <cut> <d> T[a][s][s1] R[s][a] | <err> <failbit> <post-state>
+// The text is what operator<< would have written for (d, T, R) — candidates of every kind, non-finite values print as nan/inf and
+// stop the reader there — possibly cut (1: inside the transition function, 2: inside the reward function, 3: empty stream).
+template <class M> static void loadCase(Rng & rng) {
+    constexpr bool sp = Tr<M>::bsparse;
+    Sizes z{(size_t)rng.range(1, 4), (size_t)rng.range(1, 3), 0};
+    std::unique_ptr<M> obj = construct<M>(rng, z);
+    if (!obj) obj.reset(new M(z.S, z.A, 0.5));
+    const size_t S = z.S, A = z.A;
+    for (int rep = (int)rng.range(1, 3); rep > 0; --rep) {
+        const double d = makeDiscount(rng, true);
+        const V3 t = transposeXY(makeTable(rng, S, A, S, "loadT"));      // [a][s][s1]
+        const V2 r = makeRewards2(rng, S, A);
+        const int cut = rng.coin(1, 4) ? 1 + (int)rng.below(3) : 0;
+        std::ostringstream os; os.precision(17);
+        // one section; `cutIt` drops its last token (dense: the last number; sparse: the last triplet, or the count when there is none)
+        auto denseSection = [&](const V2 & mtx, bool cutIt) {
+            size_t total = 0; for (auto & row : mtx) total += row.size();
+            size_t n = 0; for (auto & row : mtx) { for (double x : row) { if (cutIt && ++n == total) return; os << x << ' '; } os << '\n'; } os << '\n'; };
+        auto sparseSection = [&](const V2 & mtx, bool cutIt) {
+            std::vector<std::tuple<size_t, size_t, double>> tr;
+            size_t cells = 0;      // the reader refuses more triplets than the matrix has cells: a duplicate needs a cell skipped earlier
+            for (size_t i = 0; i < mtx.size(); ++i) for (size_t j = 0; j < mtx[i].size(); ++j) {
+                const double x = mtx[i][j]; ++cells;
+                if (x == 0.0) { if (rng.coin(1, 6)) tr.push_back({i, j, 0.0}); continue; }           // an explicitly stored zero
+                if (std::isfinite(x) && tr.size() + 2 <= cells && rng.coin(1, 3)) { tr.push_back({i, j, x / 2}); tr.push_back({i, j, x / 2}); stat("load:duplicate_triplet"); }   // duplicates are summed
+                else tr.push_back({i, j, x});
+            }
+            if (cutIt && tr.empty()) return;
+            os << tr.size() << '\n';
+            size_t n = 0; for (auto & [i, j, x] : tr) { if (cutIt && ++n == tr.size()) return; os << i << ' ' << j << ' ' << x << '\n'; }
+        };
+        if (cut != 3) {
+            os << d << '\n';
+            for (size_t a = 0; a < A; ++a) { const bool c = cut == 1 && a + 1 == A; if (sp) sparseSection(t[a], c); else denseSection(t[a], c); }
+            if (cut != 1) { if (sp) sparseSection(r, cut == 2); else denseSection(r, cut == 2); }
+        }
+        Line l; l << "C06" << "load" << (sp ? "sparse" : "dense"); dumpState(l, *obj);
+        l << "|" << (size_t)cut << d; put3(l, t); put2(l, r);
+        std::istringstream is(os.str());
+        std::string err = guarded([&] { is >> *obj; });
+        l << "|" << err << is.fail(); dumpState(l, *obj); l.emit();
+        stat(std::string("load:") + (err != "none" ? err : is.fail() ? "failbit" : "loaded")); stat("load_cut:" + std::to_string(cut));
+    }
 }
 
 // ------------------------------------------------------------------------------------------ isProbability, three implementations
@@ -833,7 +883,7 @@ void verif_case(Rng & rng, long idx, const std::string & tier) {
         case 8: case 14: historyCase<POMDP::SparseModel<MDP::SparseModel>>(rng, tier); break;
         case 9: historyCase<POMDP::Model<MDP::SparseModel>>(rng, tier); break;
         case 10: historyCase<POMDP::SparseModel<MDP::Model>>(rng, tier); break;
-        case 15: chainCase(rng); chainCase(rng); break;
+        case 15: chainCase(rng); chainCase(rng); loadCase<MDP::Model>(rng); loadCase<MDP::SparseModel>(rng); break;
     }
 }
 }
